@@ -129,7 +129,32 @@ class PathRun:
 
     def gen_op(self):
         r = self.rng
+        q = getattr(self, "queue", None)
+        if q:
+            return q.pop(0)
         k = r.random()
+        if r.random() < 0.05:
+            # no odd path at all: a control directory is planted with ordinary names (.git, objects, refs,
+            # HEAD, config) below a plain directory or a collection, its configuration points the work
+            # tree somewhere else, and an ordinary PUT follows
+            base = r.choice(["/user", "/user", "/user/calendars", "/user/contacts", "/user/calendars/calendar/sub"])
+            wt = r.choice(["../../..", "../../../..", "../..", "../../../outside", "../../../../outside/col"])
+            def rq(method, path, body=None, ct=None):
+                o = {"op": "req", "method": method, "path": path, "salt": r.getrandbits(32)}
+                if body is not None:
+                    o["body"], o["ctype"] = body, ct
+                return o
+            seq = []
+            if base.endswith("/sub"):
+                seq.append(rq("MKCOL", base))
+            seq += [rq("MKCOL", base + "/.git"), rq("MKCOL", base + "/.git/objects"), rq("MKCOL", base + "/.git/refs"),
+                    rq("PUT", base + "/.git/HEAD", "ref: refs/heads/master\n", "text/plain"),
+                    rq("PUT", base + "/.git/config", "[core]\n\trepositoryformatversion = 0\n\tbare = false\n\tworktree = %s\n" % wt, "text/plain"),
+                    rq("PUT", base + "/planted.ics", gen.ics(r, "planted-uid").decode("latin-1"), "text/calendar"),
+                    rq("PROPFIND", base + "/"), rq("DELETE", base + "/planted.ics")]
+            seq[-2]["depth"] = "1"
+            self.queue = seq[1:]
+            return seq[0]
         if k < 0.25:
             # ordinary traffic so that state exists
             self.fresh += 1
